@@ -68,6 +68,10 @@ def c01_context_layouts(tier, access="r"):
                     Ls.append(Layout(W, [Field("only", ty, [(1, w)], None, access)], tag=f"single {ty.decl_ty()} at bit 1 as the only field of u{W}"))
         if W >= 8:
             Ls.append(Layout(W, [Field("only", T_uint(3), [(2, 3)], None, access)], tag=f"single u3 as the only field of u{W}"))
+    # bit positions written with a leading zero are still decimal
+    for W in (16, 32, 128, 24):
+        Ls.append(Layout(W, [Field("a", T_uint(2), [(10, 2)], None, access, zero_pad=True), Field("b", T_bool(), [(W - 1 if W - 1 < 78 else 77, 1)], None, access, zero_pad=True),
+                             Field("c", T_uint(3), [(0, 1), (12, 2)], None, access, zero_pad=True), Field("d", T_uint(2), [(8, 2)], (2, 10 if W >= 24 else 3, True), access, zero_pad=True)], tag=f"zero-padded bit positions (010 is ten) on u{W}"))
     # a struct with one field per bit, raw identifiers, documented fields, non-pub struct
     Ls.append(Layout(32, [Field(f"b{i}", T_bool() if i % 3 else T_uint(1), [(i, 1)], None, access) for i in range(32)], tag="32 one-bit fields on u32"))
     L = Layout(64, [Field("type", T_uint(5), [(3, 5)], None, access, raw_ident=True), Field("match", T_bool(), [(63, 1)], None, access, raw_ident=True),
@@ -291,6 +295,15 @@ def c03_layouts(tier, seed):
         import copy
         Ls.append(Layout(W, [copy.deepcopy(a), copy.deepcopy(b), copy.deepcopy(c)], tag=f"strided array, then dense arrays without stride on u{W}"))
         Ls.append(Layout(W, [copy.deepcopy(c), copy.deepcopy(b), copy.deepcopy(a)], tag=f"dense arrays first, strided array last on u{W}"))
+    # the arguments of one field spread over two attributes
+    for split in ("access_last", "access_first"):
+        for (W, shape, ty) in ((32, (0, 4, 8, 4), T_uint(4)), (64, (4, 8, 16, 3), T_int(8)), (24, (1, 1, 3, 5), T_bool())):
+            L = mk(W, shape, ty, explicit=True, tag=f"array whose attribute arguments are split over two attributes ({split}) on u{W}")
+            L.fields[0].attr_split = split
+            Ls.append(L)
+    # range-list arrays with stride 0: every element is the same bits
+    for W in (16, 32, 24):
+        Ls.append(Layout(W, [Field("v", T_uint(8), [(0, 4), (8, 4)], (3, 0, True), "rw")], tag=f"range-list array with stride 0 on u{W}"))
     # the same attribute written with its arguments in other orders
     for order in ("sra", "asr", "rsa", "ars", "sar"):
         for (W, shape, ty) in ((32, (0, 4, 8, 4), T_uint(4)), (16, (1, 1, 3, 5), T_bool()), (64, (4, 8, 16, 3), T_int(8)), (24, (2, 3, 5, 4), T_uint(3))):
@@ -463,6 +476,10 @@ def c05_layouts(tier, seed):
                 Ls.append(Layout(W, [Field("f", T_int(N), [(1, 1), (W - N + 1, N - 1)], None, "rw")], tag=f"i{N} list with 1-bit first item on u{W}"))
             if W >= 2 * N + 2:
                 Ls.append(Layout(W, [Field("a", T_int(N), [(N // 2, N // 2), (0, N // 2)], (2, N + 1, True), "rw")], tag=f"i{N} array of lists on u{W}"))
+    # write-only signed fields (observed through raw_value only), not at the top of the storage
+    for N in (8, 16, 32, 64):
+        for W in [w_ for w_ in (16, 32, 64, 128, 24, 100) if w_ >= N + 9]:
+            Ls.append(Layout(W, [Field("s", T_int(N), [(8, N)], None, "w"), Field("a", T_int(N), [(0, N)], (2, W // 2, True), "w") if W // 2 >= N else Field("z", T_bool(), [(0, 1)], None, "w")], tag=f"write-only i{N} fields on u{W}"))
     # structs mixing unsigned and signed fields of the same width, in both declaration orders, the signed
     # one below the top of the storage (generator state carried from one field to the next)
     for N in (8, 16, 32, 64):
@@ -503,7 +520,7 @@ def h_signed_extra(L, f):
 
 def plan_c05(tier, seed):
     Ls = c05_layouts(tier, seed)
-    us = units_from(Ls, lambda L: [h for h in sum([[H.h_get(L, f, "C05"), H.h_set(L, f, "C05"), h_signed_extra(L, f)] + ([H.h_set2(L, f, "C05")] if (len(f.ranges) > 1 or f.array) else []) for f in L.fields], []) if h is not None])
+    us = units_from(Ls, lambda L: [h for h in sum([[H.h_get(L, f, "C05") if f.readable else None, H.h_set(L, f, "C05"), h_signed_extra(L, f) if f.readable else None] + ([H.h_set2(L, f, "C05")] if (len(f.ranges) > 1 or f.array) else []) for f in L.fields], []) if h is not None])
     add_controls(us, "C05", kinds=("get", "set", "set"))
     return Plan(us, title="signed fields", chunk=220 if tier == "quick" else 600,
                 bounds={"inputs": "all raw values x all iN values (negative included) x all indices", "layouts": "N in {8,16,32,64,128} x bases >= N x {plain (several lo), array default/explicit stride, two-range lists both orders, array of lists}"},
@@ -533,7 +550,9 @@ def c06_layouts(tier, seed):
             (("const", pats[1]), False, [], "named constant, struct without fields"),
             (("lit", pats[3], "dec"), True, [lowf], "decimal literal top bit only, legacy `:` syntax"),
         ]
-        forms += [(("lit", pats[1] | 1, "bin"), False, [lowf], "binary literal default"),
+        forms += [(("lit", pats[1] | 1, "hex"), "via_macro", [lowf], "declaration stamped out by macro_rules!, literal default passed as $d:expr"),
+                  (("const", pats[3] | 1), "via_macro", [], "declaration stamped out by macro_rules!, named-constant default passed as $d:expr"),
+                  (("lit", pats[1] | 1, "bin"), False, [lowf], "binary literal default"),
                   (("lit", pats[0], "hex_"), False, [], "hex literal with underscores, all ones"),
                   (("lit", pats[1] | 1, "hex"), "debug_after", [], "literal default followed by `debug`"),
                   (("const", pats[0]), "debug_before", [], "`debug` written before a named-constant default"),
@@ -551,6 +570,8 @@ def c06_layouts(tier, seed):
                 L.debug, L.debug_first = True, True
             elif legacy == "trailing_comma":
                 L.trailing_comma = True
+            elif legacy == "via_macro":
+                L.via_macro = True
             if d and d[0] == "const":
                 # names a generated item might also want to use for itself
                 L.const_name = ["MAX", "DEF_CONST", "MASK", "ZERO", "DEFAULT", "BITS", "MIN", "DEFAULT_RAW_VALUE", "RESET"][len(Ls) % 9]
@@ -1040,6 +1061,8 @@ def h_untouched(L, f):
 
 def bit_keyword_list_layouts():
     Ls = []
+    Ls.append(Layout(32, [Field("type", T_uint(8), [(0, 4), (8, 4)], None, "rw", raw_ident=True), Field("in", T_uint(2), [(16, 1), (18, 1)], (3, 4, True), "rw", raw_ident=True, form="bit_list")], tag="raw-identifier fields declared with range lists on u32"))
+    Ls.append(Layout(24, [Field("v", T_uint(8), [(0, 4), (8, 4)], (3, 0, True), "rw"), Field("w", T_uint(2), [(20, 1), (22, 1)], (2, 0, True), "rw")], tag="range-list arrays with stride 0 on u24"))
     for W in (8, 32, 24, 128):
         Ls.append(Layout(W, [Field("x", T_uint(2), [(0, 1), (4, 1)], None, "rw", form="bit_list"), Field("y", T_uint(4), [(W - 4, 4)], None, "rw", form="bit_list"), Field("z", T_uint(2), [(1, 1), (3, 1)], (2, 4, True), "rw", form="bit_list")], tag=f"multi-bit fields whose lists are spelled under `bit` on u{W}"))
     return Ls
@@ -2033,6 +2056,11 @@ def c10_candidates(tier, seed):
         if N < 64:
             add(N, [0, top + 1], None, "discriminant-too-large", f"u{N}: discriminant 2^{N}")
             add(N, [top + 1], "false", "discriminant-too-large", f"u{N}: only discriminant 2^{N}")
+    for N in (2, 3):
+        n = 1 << N
+        add1(N, [0, 1, n + 3], "conditional", "gated-discriminant-too-large", f"u{N}: conditional with a cfg-gated (inactive) variant whose discriminant is too large", cfg=[None, None, "off"])
+        add1(N, [0, 1, n], "conditional", "gated-discriminant-too-large", f"u{N}: conditional with a cfg-gated (active) variant whose discriminant is 2^N", cfg=[None, None, "on"])
+        add1(N, list(range(n)) + [n], "conditional", "gated-discriminant-too-large", f"u{N}: 2^N+1 variants, the gated extra one too large", cfg=[None] * n + ["on_doc"])
     # variants without an explicit discriminant (rustc would number them previous + 1)
     for (bits, names_discr, implicit, ex) in ((2, [0, 1, 2, 3], ["V1", "V2", "V3"], "true"), (2, [2, 0, 1, 3], ["V2"], "true"), (4, [8, 2, 3, 4], ["V2", "V3"], None),
                                               (3, [0, 1, 2], ["V0", "V1", "V2"], "false"), (1, [0, 1], ["V1"], "true"), (8, [5, 6], ["V1"], None)):
@@ -2169,7 +2197,7 @@ def c19_layouts(tier, seed):
         """specs: list of (kind, lo, w)"""
         aux, fields = [], []
         for i, (kind, lo, w) in enumerate(specs):
-            name = ["ready", "_b", "rx_count", "d", "rr", "f_long_name", "_reserved_5_7", "h"][i]
+            name = ["ready", "_b", "f", "d", "rr", "i", "_reserved_5_7", "fmt"][i]
             if kind == "bool":
                 ty = T_bool()
             elif kind == "uint":
@@ -2193,7 +2221,7 @@ def c19_layouts(tier, seed):
             else:
                 aux.append(nested_decl(f"Inner{i}", w).replace(f"#[bitfield(u{w})]", f"#[bitfield(u{w}, debug)]"))
                 ty = FType("nested", w, None, f"Inner{i}")
-            fields.append(Field(name, ty, [(lo, w)] if not isinstance(lo, list) else lo, None, "r" if i % 3 == 2 else "rw"))
+            fields.append(Field(name, ty, [(lo, w)] if not isinstance(lo, list) else lo, None, "r" if i % 3 == 2 else "rw", doc_hidden=(i % 4 == 1), doc=("a documented field" if i % 4 == 3 else None)))
         return Layout(W, fields, debug=True, aux=aux, tag=tag)
 
     Ls.append(mk(8, [("uint", 0, 4), ("uint", 4, 4)], "two nibbles on u8"))
